@@ -6,7 +6,7 @@
      for every IR program whose function bodies declare their variables at the top level (every
      compiled program does), every query, every well-formed heap h and cell counter nx, every
      recursion limit d:  resuming the query's generator object until it ends yields, in order,
-     exactly the stores of  Sem.Machine.query d ir name args {sto := h; nxt := nx},  and it ends
+     exactly the stores of  Sem.Machine.queryF ir DB d name args {sto := h; nxt := nx},  and it ends
      by StopIteration / by an exception exactly as the big-step semantics says.
 
    The proof uses the restoration theorems of Restore.v: when control comes back to a suspended
@@ -15,7 +15,7 @@ From Coq Require Import String.
 From Coq Require Import List Arith Bool Lia ZArith NArith.
 Import ListNotations.
 From YP Require Import Base.Str Term.Term Term.Fast Term.Dfast Unify.Unify Unify.Fast Unify.UnifyGen Unify.UnifyGenFast Comp.IR Comp.CompileBody
-  Sem.IRSem Sem.Machine Engine.GenMachine Engine.Restore Engine.MachineMono Engine.IRMachine.
+  Sem.IRSem Sem.Machine Engine.GenMachine Engine.Restore Engine.MachineMono Engine.IRMachine Engine.QueryFacts.
 Local Open Scope string_scope.
 Local Open Scope list_scope.
 
@@ -68,7 +68,8 @@ Qed.
 
 Section Refine.
   Variable ir : ir_program.
-  Notation prog := (prog ir nofacts nouser).
+  Variable DB : str -> nat -> list fact.          (* the database of dynamic facts *)
+  Notation prog := (prog ir DB nouser).
   Notation mexec := (exec mkleaf lnext lclose prog f_nxt).
   Notation mcont := (cont mkleaf lnext lclose prog f_nxt).
   Notation mloop := (loop mkleaf lnext lclose prog f_nxt).
@@ -121,7 +122,7 @@ Section Refine.
   Definition ISpec (D : nat) (h0 : heap) (g0 : nat) (r : list st * bool) (h : heap) (it : miter) : Prop :=
     FSpec D g0 (fst r) (if snd r then RRaise else RStop) (fun n => minext n D h it) /\ MInv h0 it h.
 
-  Definition J (d : nat) := Machine.iter (query d ir).
+  Definition J (d : nat) := Machine.iter (queryF ir DB d).
   Definition XL (d : nat) := IRSem.exec_list (J d) assign.
   Definition XS (d : nat) := IRSem.exec_stmt (J d) assign.
 
@@ -250,7 +251,7 @@ Section Refine.
 
   (* ---------------------------------------------------------------- statements *)
   Definition CallOK (d : nat) : Prop := forall g0 name args nx h, wf h ->
-    ISpec d h g0 (query d ir name args (mkst h nx)) h (m_query ir nofacts nouser name args nx).
+    ISpec d h g0 (queryF ir DB d name args (mkst h nx)) h (m_query ir DB nouser name args nx).
 
   Lemma ispec_iter d : CallOK d -> forall it (k : mkont) e h xs err, wf h ->
     J d it (f_env e, mkst h (kn k e)) = (xs, err) ->
@@ -269,7 +270,7 @@ Section Refine.
       inversion HJ; subst. exists ys. split; [reflexivity|]. cbn [mkiter]. rewrite <- U. apply ispec_unify. exact W.
     - destruct (str_eqb f (s_ "query")); [|apply (R [] HJ eq_refl)].
       destruct a; try (apply (R [] HJ eq_refl)). destruct b; try (apply (R [] HJ eq_refl)).
-      destruct (query d ir s (map (eval_expr (f_env e)) items) (mkst h (kn k e))) as [ys ee] eqn:U.
+      destruct (queryF ir DB d s (map (eval_expr (f_env e)) items) (mkst h (kn k e))) as [ys ee] eqn:U.
       inversion HJ; subst. exists ys. split; [reflexivity|]. cbn [mkiter]. rewrite <- U. apply HC. exact W.
   Qed.
 
@@ -543,7 +544,7 @@ Section Refine.
   Qed.
 
   Lemma ispec_call d : CallOK d -> forall goal extra g (e : fr) h, wf h ->
-    ISpec d h g (call_goal (query d ir) goal extra (mkst h g)) h (mkiter mkleaf prog (call_expr goal extra g e h) h).
+    ISpec d h g (call_goal (queryF ir DB d) goal extra (mkst h g)) h (mkiter mkleaf prog (call_expr goal extra g e h) h).
   Proof.
     intros HC goal extra g e h W. unfold call_goal, call_expr. cbn [sto mkst]. rewrite dfast_eq, <- den_fast_eq.
     destruct (den_fast h goal); try apply ispec_raise; cbn [mkiter]; apply HC; exact W.
@@ -642,8 +643,8 @@ Section Refine.
 
   Lemma builtin_sim d : CallOK d -> forall name args nx h g0, wf h ->
     FSpec (S d) g0
-      (fst (match builtin (query d ir) name args (mkst h nx) with Some r => r | None => ([], false) end))
-      (rend (snd (match builtin (query d ir) name args (mkst h nx) with Some r => r | None => ([], false) end)))
+      (fst (match builtin (queryF ir DB d) name args (mkst h nx) with Some r => r | None => ([], false) end))
+      (rend (snd (match builtin (queryF ir DB d) name args (mkst h nx) with Some r => r | None => ([], false) end)))
       (fun n => mexec n d h (fst (builtin_code name args)) KNil (fr0 (snd (builtin_code name args)) nx)).
   Proof.
     intros HC name args nx h g0 W. unfold builtin, builtin_code.
@@ -659,17 +660,17 @@ Section Refine.
     destruct (str_eqb name (s_ "call")).
     { destruct args as [|g extra]; cbn [fst snd].
       - exists 1, h, IDone. intros n L. destruct n as [|n]; [lia|]. reflexivity.
-      - destruct (call_goal (query d ir) g extra (mkst h nx)) as [xs err] eqn:U. cbn [fst snd].
+      - destruct (call_goal (queryF ir DB d) g extra (mkst h nx)) as [xs err] eqn:U. cbn [fst snd].
         apply yield_for; auto. cbn [f_nxt fr0]. rewrite <- U. apply ispec_call; auto. }
     destruct (str_eqb name (s_ "once")).
     { destruct args as [|g [|b rest]]; try apply skip_spec. cbn [fst snd].
-      destruct (call_goal (query d ir) g [] (mkst h nx)) as [xs err] eqn:U.
+      destruct (call_goal (queryF ir DB d) g [] (mkst h nx)) as [xs err] eqn:U.
       pose proof (once_for d (call_expr g []) g0 (fr0 [] nx) h xs err W) as H. cbn [f_nxt fr0] in H.
       pose proof (ispec_call d HC g [] nx (fr0 [] nx) h W) as HI. rewrite U in HI. specialize (H HI).
       destruct xs; exact H. }
     destruct (str_eqb name (s_ "findall")).
     { destruct args as [|t [|g [|l [|c rest]]]]; try apply skip_spec. cbn [fst snd].
-      destruct (call_goal (query d ir) g [] (mkst h nx)) as [xs err] eqn:U.
+      destruct (call_goal (queryF ir DB d) g [] (mkst h nx)) as [xs err] eqn:U.
       pose proof (ispec_call d HC g [] nx (fr0 [] nx) h W) as HI. rewrite U in HI.
       eapply FSpec_ev; [exists 0, 2, 0; intros n _; cbn [Nat.add]; rewrite exec_S, exec_S; reflexivity|].
       apply (findall_loop d t (KSeq _ KNil) g0 h W xs err (fr0 [] nx) h _ _ _ HI).
@@ -690,22 +691,156 @@ Section Refine.
   (* ---------------------------------------------------------------- the theorem *)
   Hypothesis OK : ir_ok ir.
 
+  (* ---- dynamic facts: for _ in unify_arrays(args, <copy of the fact>): yield False ---- *)
+  Definition arrays_st (h : heap) (g : nat) (xs ys : list term) : list st * bool :=
+    match unify_arrays_fast ufuel h xs ys with
+    | UOk s' => ([mkst s' g], false)
+    | UFail => ([], false)
+    | _ => ([], true)
+    end.
+
+  Lemma ispec_arrays d h g xs ys : wf h ->
+    ISpec d h g (arrays_st h g xs ys) h (ILeaf (mkleaf (XArrays xs ys) h)).
+  Proof.
+    intros W. split; [|constructor; apply L_new].
+    unfold arrays_st. cbn [mkleaf]. rewrite unify_arrays_x_eq, <- unify_arrays_fast_eq.
+    destruct (unify_arrays_fast ufuel h xs ys) as [s'| | |] eqn:U; cbn [fst snd FSpec].
+    - rewrite unify_arrays_fast_eq in U.
+      destruct (@arrays_gen_matches_unify ufuel h xs ys W) as [A _]. destruct (A _ U) as [g1 N1].
+      destruct (@unify_arrays_sound ufuel h xs ys s' W U) as [W' _].
+      pose proof (@next_fresh (S ufuel) h (GArrFresh xs ys) _ I N1) as [[Q1 _] _].
+      destruct (quiet_next_total Q1 s') as [n2 [[[h2 g2] y2] N2]].
+      destruct (@next_quiet n2 g1 s' h2 g2 y2 Q1 N2) as [Y2 _]. subst y2.
+      exists (S (S ufuel)), (ILeaf (LGen g1)). cbn [sto nxt mkst it_nxt]. repeat split; auto.
+      + intros n L. destruct n as [|n]; [lia|]. rewrite inext_S. cbn [lnext].
+        rewrite next_x_eq, (@next_mono (S ufuel) n _ _ _ N1) by lia. reflexivity.
+      + exists (S n2), h2, (ILeaf (LGen g2)). intros n L. destruct n as [|n]; [lia|]. rewrite inext_S. cbn [lnext].
+        rewrite next_x_eq, (@next_mono n2 n _ _ _ N2) by lia. reflexivity.
+    - rewrite unify_arrays_fast_eq in U.
+      destruct (@arrays_gen_matches_unify ufuel h xs ys W) as [_ B]. destruct (B U) as [g1 N1].
+      exists (S (S ufuel)), h, (ILeaf (LGen g1)). intros n L. destruct n as [|n]; [lia|]. rewrite inext_S. cbn [lnext].
+      rewrite next_x_eq, (@next_mono (S ufuel) n _ _ _ N1) by lia. reflexivity.
+    - exists 1, h, (ILeaf LRaise). intros n L. destruct n as [|n]; [lia|]. reflexivity.
+    - exists 1, h, (ILeaf LRaise). intros n L. destruct n as [|n]; [lia|]. reflexivity.
+  Qed.
+
+  Lemma facts_sim d (c : mcode) h g0 args (r_env : env) : wf h ->
+    forall fs (e : fr) fa fe nx' ys rf,
+      f_env e = r_env -> f_fl e = flags0 -> f_aux e = 0 ->
+      fact_answers fs args (mkst h (f_nxt e)) = (fa, fe, nx') ->
+      (if fe then ys = [] /\ rf = RRaise
+       else FSpec (S d) g0 ys rf (fun n => mexec n d h c KNil (fr0 r_env nx'))) ->
+      FSpec (S d) g0 (fa ++ ys) rf (fun n => mexec n d h (facts_code fs args) (KSeq c KNil) e).
+  Proof.
+    intros W. induction fs as [|[m vals] r IH]; intros e fa fe nx' ys rf E1 E2 E3 HA HK.
+    - cbn [fact_answers] in HA. inversion HA; subst fa fe nx'. cbn [app facts_code nxt mkst] in *.
+      eapply FSpec_ev; [|exact HK]. exists 0, 2, 0. intros n _. cbn [Nat.add]. rewrite exec_S, cont_S.
+      f_equal. unfold clear_acc, fr0. destruct e; cbn in *. subst. reflexivity.
+    - cbn [fact_answers sto nxt mkst] in HA. cbn [facts_code].
+      set (e1 := {| f_env := f_env e; f_nxt := f_nxt e + m; f_fl := f_fl e;
+                    f_acc := map (shift_term (f_nxt e)) vals; f_aux := f_aux e |}).
+      set (K := (KSeq (facts_code r args) (KSeq c KNil) : mkont)).
+      eapply FSpec_ev; [exists 0, 4, 0; intros n _; cbn [Nat.add]; rewrite exec_S, exec_S, cont_S, exec_S; reflexivity|].
+      cbn [knxt]. fold e1. fold K.
+      pose proof (ispec_arrays d h (f_nxt e1) args (f_acc e1) W) as HI.
+      unfold arrays_st in HI. cbn [f_nxt f_acc e1] in HI.
+      destruct (unify_arrays_fast ufuel h args (map (shift_term (f_nxt e)) vals)) as [s'| | |] eqn:U.
+      + destruct (fact_answers r args {| sto := h; nxt := f_nxt e + m |}) as [[ys1 e1'] nx1] eqn:R1.
+        inversion HA; subst fa fe nx'.
+        change (({| sto := s'; nxt := f_nxt e + m |} :: ys1) ++ ys) with
+               (map snd [(f_env e1, mkst s' (f_nxt e + m))] ++ (ys1 ++ ys)).
+        apply (for_sim d (fun _ e _ => ELeaf (XArrays args (f_acc e))) CYield K _ (fun it' => sim_yield d _)
+                 g0 e1 h [mkst s' (f_nxt e + m)] false _ CNorm (f_fl e1) (ys1 ++ ys) rf W HI (loop_yield _ _ _)).
+        cbn [Kont]. eapply FSpec_S; [intros n; apply cont_S|]. cbn beta iota. rewrite setfl_same.
+        apply (IH e1 ys1 e1' nx1 ys rf E1 E2 E3 R1 HK).
+      + change (fa ++ ys) with (map snd (@nil cfg) ++ (fa ++ ys)).
+        apply (for_sim d (fun _ e _ => ELeaf (XArrays args (f_acc e))) CYield K _ (fun it' => sim_yield d _)
+                 g0 e1 h [] false _ CNorm (f_fl e1) (fa ++ ys) rf W HI (loop_yield _ _ _)).
+        cbn [Kont]. eapply FSpec_S; [intros n; apply cont_S|]. cbn beta iota. rewrite setfl_same.
+        apply (IH e1 fa fe nx' ys rf E1 E2 E3 HA HK).
+      + inversion HA; subst fa fe nx'. destruct HK as [-> ->].
+        change ([] ++ []) with (map snd (@nil cfg) ++ (@nil st)).
+        apply (for_sim d (fun _ e _ => ELeaf (XArrays args (f_acc e))) CYield K _ (fun it' => sim_yield d _)
+                 g0 e1 h [] true _ CErr (f_fl e1) [] RRaise W HI (loop_yield _ _ _)). cbn [Kont]. auto.
+      + inversion HA; subst fa fe nx'. destruct HK as [-> ->].
+        change ([] ++ []) with (map snd (@nil cfg) ++ (@nil st)).
+        apply (for_sim d (fun _ e _ => ELeaf (XArrays args (f_acc e))) CYield K _ (fun it' => sim_yield d _)
+                 g0 e1 h [] true _ CErr (f_fl e1) [] RRaise W HI (loop_yield _ _ _)). cbn [Kont]. auto.
+  Qed.
+
+  (* the function / builtin part of a query, and its code *)
+  Definition part (d : nat) (name : str) (args : list term) (s : st) : list st * bool :=
+    match find_func ir name (length args) with
+    | Some f =>
+        let '(ys, k) := run_function (Machine.iter (queryF ir DB d)) assign (fn_body f) (bind_args 0 args, s) in
+        (map snd ys, match k with CErr => true | _ => false end)
+    | None =>
+        match builtin (queryF ir DB d) name args s with
+        | Some r => r
+        | None => ([], false)
+        end
+    end.
+  Definition code_env (name : str) (args : list term) : mcode * env :=
+    match find_func ir name (length args) with
+    | Some f => (fun_code (fn_body f), bind_args 0 args)
+    | None => builtin_code name args
+    end.
+
+  Lemma queryF_S d name args s : queryF ir DB (S d) name args s =
+    match fact_answers (DB name (length args)) args s with
+    | (fa, true, _) => (fa, true)
+    | (fa, false, nx') => (fa ++ fst (part d name args {| sto := sto s; nxt := nx' |}),
+                           snd (part d name args {| sto := sto s; nxt := nx' |}))
+    end.
+  Proof.
+    cbn [queryF]. unfold part. destruct (fact_answers (DB name (length args)) args s) as [[fa fe] nx'].
+    destruct fe; auto. destruct (find_func ir name (length args)).
+    - destruct (run_function _ _ _ _) as [ys k]. reflexivity.
+    - destruct (builtin _ _ _ _) as [[ys e]|]; reflexivity.
+  Qed.
+
+  Lemma prog_eq name args nx : prog (name, args, nx) =
+    (match DB name (length args) with
+     | [] => fst (code_env name args)
+     | f0 :: l => CSeq (facts_code (f0 :: l) args) (fst (code_env name args)) end,
+     fr0 (snd (code_env name args)) nx).
+  Proof.
+    unfold IRMachine.prog, nouser, code_env.
+    destruct (find_func ir name (length args)); [|destruct (builtin_code name args)];
+      destruct (DB name (length args)); reflexivity.
+  Qed.
+
   Theorem call_ok : forall d, CallOK d.
   Proof.
     induction d as [|d IH]; intros g0 name args nx h W; (split; [|constructor]).
-    - cbn [query fst snd FSpec]. exists 1, h, (m_query ir nofacts nouser name args nx). intros n L.
+    - cbn [queryF fst snd FSpec]. exists 1, h, (m_query ir DB nouser name args nx). intros n L.
       destruct n as [|n]; [lia|]. reflexivity.
     - eapply FSpec_S; [intros n; unfold m_query; apply inext_S|]. cbn beta iota.
-      cbn [query]. unfold IRMachine.prog, nofacts, nouser.
-      destruct (find_func ir name (length args)) as [f|] eqn:Ef.
-      + destruct (run_function (Machine.iter (query d ir)) assign (fn_body f) (bind_args 0 args, mkst h nx)) as [ys kf] eqn:ER.
-        cbn [fst snd]. apply (fun_sim d IH (fn_body f) _ nx h g0 ys kf W); [|exact ER].
-        apply OK. eapply find_func_in; eauto.
-      + pose proof (builtin_sim d IH name args nx h g0 W) as H.
-        destruct (builtin_code name args) as [c r]. cbn [fst snd] in *. exact H.
+      rewrite queryF_S, prog_eq. cbn [fst snd sto mkst].
+      assert (HR: forall nx', FSpec (S d) g0 (fst (part d name args (mkst h nx'))) (rend (snd (part d name args (mkst h nx'))))
+                                (fun n => mexec n d h (fst (code_env name args)) KNil (fr0 (snd (code_env name args)) nx'))).
+      { intros nx'. unfold part, code_env. destruct (find_func ir name (length args)) as [f|] eqn:Ef.
+        - destruct (run_function (Machine.iter (queryF ir DB d)) assign (fn_body f) (bind_args 0 args, mkst h nx')) as [ys kf] eqn:ER.
+          cbn [fst snd]. apply (fun_sim d IH (fn_body f) _ nx' h g0 ys kf W); [|exact ER].
+          apply OK. eapply find_func_in; eauto.
+        - apply (builtin_sim d IH name args nx' h g0 W). }
+      destruct (fact_answers (DB name (length args)) args (mkst h nx)) as [[fa fe] nx'] eqn:FA.
+      destruct (DB name (length args)) as [|f0 fs0] eqn:EDB.
+      + cbn [fact_answers] in FA. inversion FA; subst fa fe nx'. cbn [nxt mkst app fst snd]. apply HR.
+      + eapply FSpec_S; [intros n; apply exec_S|]. cbn beta iota.
+        assert (G: forall ys rf, (if fe then ys = [] /\ rf = RRaise else
+                      FSpec (S d) g0 ys rf (fun n => mexec n d h (fst (code_env name args)) KNil (fr0 (snd (code_env name args)) nx'))) ->
+                   FSpec (S d) g0 (fa ++ ys) rf
+                     (fun n => mexec n d h (facts_code (f0 :: fs0) args) (KSeq (fst (code_env name args)) KNil) (fr0 (snd (code_env name args)) nx))).
+        { intros ys rf HK.
+          apply (facts_sim d (fst (code_env name args)) h g0 args (snd (code_env name args)) W (f0 :: fs0)
+                   (fr0 (snd (code_env name args)) nx) fa fe nx' ys rf eq_refl eq_refl eq_refl FA HK). }
+        destruct fe; cbn [fst snd rend].
+        * rewrite <- (app_nil_r fa). apply G. auto.
+        * apply G. apply HR.
   Qed.
 
-  Notation mnexts := (m_nexts ir nofacts nouser).
+  Notation mnexts := (m_nexts ir DB nouser).
 
   Lemma FSpec_nexts D g0 xs rf : rf <> RYield -> forall k h it,
     FSpec D g0 xs rf (fun n => minext n D h it) ->
@@ -732,18 +867,18 @@ Section Refine.
      an exception exactly as the big-step semantics says, and the heap is then the initial one. *)
   Theorem machine_refines_irsem d name args nx h k : wf h ->
     exists N hf itf, forall n, N <= n ->
-      mnexts n d k h (m_query ir nofacts nouser name args nx) =
-      Some (hf, itf, map sto (firstn k (fst (query d ir name args (mkst h nx)))),
-            if Nat.leb k (length (fst (query d ir name args (mkst h nx)))) then RYield
-            else rend (snd (query d ir name args (mkst h nx))))
-      /\ (length (fst (query d ir name args (mkst h nx))) < k -> hf = h).
+      mnexts n d k h (m_query ir DB nouser name args nx) =
+      Some (hf, itf, map sto (firstn k (fst (queryF ir DB d name args (mkst h nx)))),
+            if Nat.leb k (length (fst (queryF ir DB d name args (mkst h nx)))) then RYield
+            else rend (snd (queryF ir DB d name args (mkst h nx))))
+      /\ (length (fst (queryF ir DB d name args (mkst h nx))) < k -> hf = h).
   Proof.
     intros W. destruct (call_ok d 0 name args nx h W) as [HF _].
-    assert (NY: rend (snd (query d ir name args (mkst h nx))) <> RYield) by (destruct (snd _); discriminate).
+    assert (NY: rend (snd (queryF ir DB d name args (mkst h nx))) <> RYield) by (destruct (snd _); discriminate).
     destruct (FSpec_nexts d 0 _ _ NY k _ _ HF) as [N [hf [itf H]]].
     exists N, hf, itf. intros n Ln. split; [exact (H n Ln)|]. intros Lk.
     pose proof (H n Ln) as Hn. apply Nat.leb_gt in Lk. rewrite Lk in Hn.
-    destruct (compiled_query_restores ir nofacts nouser _ _ _ _ _ _ _ Hn) as [_ [_ [A _]]]. apply A. exact NY.
+    destruct (compiled_query_restores ir DB nouser _ _ _ _ _ _ _ Hn) as [_ [_ [A _]]]. apply A. exact NY.
   Qed.
 
   Lemma lnext_mono_S n h l r : lnext n h l = Some r -> lnext (S n) h l = Some r.
@@ -754,10 +889,10 @@ Section Refine.
 
   (* ... and for WHATEVER fuel the machine returns a value at *)
   Theorem machine_refines_irsem_fuel d name args nx h k n hf itf ys r : wf h ->
-    mnexts n d k h (m_query ir nofacts nouser name args nx) = Some (hf, itf, ys, r) ->
-    ys = map sto (firstn k (fst (query d ir name args (mkst h nx)))) /\
-    r = (if Nat.leb k (length (fst (query d ir name args (mkst h nx)))) then RYield
-         else rend (snd (query d ir name args (mkst h nx)))).
+    mnexts n d k h (m_query ir DB nouser name args nx) = Some (hf, itf, ys, r) ->
+    ys = map sto (firstn k (fst (queryF ir DB d name args (mkst h nx)))) /\
+    r = (if Nat.leb k (length (fst (queryF ir DB d name args (mkst h nx)))) then RYield
+         else rend (snd (queryF ir DB d name args (mkst h nx)))).
   Proof.
     intros W H. destruct (machine_refines_irsem d name args nx h k W) as [N [hf' [itf' HN]]].
     destruct (HN (n + N)) as [A _]; [lia|].
@@ -769,7 +904,7 @@ Section Refine.
   (* the same with the cell counters: the i-th suspension of the generator object carries the
      counter of the i-th answer *)
   Theorem machine_refines_irsem_steps d name args nx h : wf h ->
-    FSpec d 0 (fst (query d ir name args (mkst h nx))) (rend (snd (query d ir name args (mkst h nx))))
-          (fun n => minext n d h (m_query ir nofacts nouser name args nx)).
+    FSpec d 0 (fst (queryF ir DB d name args (mkst h nx))) (rend (snd (queryF ir DB d name args (mkst h nx))))
+          (fun n => minext n d h (m_query ir DB nouser name args nx)).
   Proof. intros W. apply (call_ok d 0 name args nx h W). Qed.
 End Refine.
